@@ -432,7 +432,7 @@ impl C17 {
         use std::io::Write;
         let child = std::process::Command::new("bash")
             .arg("-c")
-            .arg("ulimit -t 20; exec timeout 600 \"$0\"")
+            .arg("ulimit -S -t 20; ulimit -H -t 30; exec timeout 600 \"$0\"")
             .arg(&bin_s)
             .stdin(std::process::Stdio::piped())
             .stdout(std::process::Stdio::piped())
